@@ -4,17 +4,41 @@ C13 - sensitivity systems are the variational equations of the model.   (PARTIAL
 Proof (lean/Pygom/Props/C13.lean, about lean/Pygom/Sens.lean): layouts of `ode_and_sensitivity` (both
 arrangements) and `ode_and_sensitivityIV`; the assembled block Jacobians (by parameter, initial-value
 system incl. nP = 0, and the repaired by-state matrix) are entry by entry the derivative of the augmented
-right-hand side; the by-state matrix AS CODED is not (counterexample).
+right-hand side; the by-state matrix AS CODED is not (counterexample).  In the Lean model every one of these
+is a PURE FUNCTION of its arguments `(z, f, J, G, DJ, GJ)`, i.e. of the mathematical point `(z, t)` and of the
+derivative objects of the current definition at the current parameter values: nothing is remembered between
+calls, instances do not interact, and the representation of `z` does not exist (`session_is_pure`,
+`earlier_results_kept`, `revisit_reproduces`, `instances_do_not_interact` in Props/C13.lean).
 
 Tie (this file), per random model and random point z:
  (a) real `ode_and_sensitivity(z,t,by_state)`, `ode_and_sensitivityIV(z,t)` and the `*_jacobian` against the
      Lean driver's `layout` run on the exact values of f, J, G, dJ, dG (the driver's own `assemble`
      derivative expressions evaluated at the point);
  (b) DIRECT ORACLE, no Lean: J.S+G written out with explicit index loops from model.jacobian/model.grad;
-     Richardson-extrapolated central differences of the REAL right-hand sides for the Jacobians;
+     the block Jacobians written out with explicit index loops from jacobian/diff_jacobian/grad_jacobian AND
+     Richardson-extrapolated central differences of the REAL right-hand sides;
      integrated sensitivity columns (scipy DOP853 on the real augmented right-hand side) against finite
      differences in theta and x0 of reference solutions of pygom's `ode` (DOP853, rtol=atol=1e-12).
+ (c) the same direct oracle applied along a SESSION on live instances (what purity means for the real code):
+     * every entry point: the four primary ones, their `_T` twins (time first), `sensitivity`, `sensitivity_T`,
+       `eval_sensitivity`, `sensitivityIV`, `sensitivityIV_T`, `eval_sensitivityIV`, `sens_jacobian_state`,
+       `sens_jacobian_state_T`, `eval_sens_jacobian_state`;
+     * input FORM: the point as float ndarray, list, tuple, list of numpy scalars, strided view, read-only array,
+       and - for integer-valued points, among them the natural start of a sensitivity integration
+       `[999, 1, 0, ...] + [0]*nS*nP (+ identity)` - int64/int32 ndarray, list/tuple of Python ints, list of numpy
+       ints, object array; the time as Python float/int, numpy float/int scalar, 0-d array; each judged against
+       the oracle for the same mathematical point;
+     * HISTORY on one instance: same state at another time and back; a sibling instance evaluated at the same
+       numbers in between; `parameters` re-assigned (list, tuple, ndarray, dict, partial dict) and restored;
+       an event / transition / ODE term ADDED to the live model (judged against a fresh model of the final
+       definition); the oracle's J, G, ... are taken before the session starts or from fresh instances so that
+       the history under test contains only calls of the entry points;
+     * SIBLINGS: same names with states and parameters declared in another order, another definition, one
+       parameter fewer, or a `copy.deepcopy` of the configured instance with other parameter values;
+     * every array RETURNED anywhere in the session is kept and compared with its value at return time after the
+       last call; every ARGUMENT object is compared with its snapshot.
 """
+import copy
 import json
 import random
 from fractions import Fraction
@@ -38,24 +62,46 @@ LEAN = {"module": "Pygom.Props.C13", "extra_modules": ["Pygom.Props.C13Link"],
                      "Pygom.C13.aug_jacobian_is_derivative", "Pygom.C13.aug_jacobianIV_is_derivative",
                      "Pygom.C13.aug_jacobian_by_state_repaired_is_derivative",
                      "Pygom.C13.aug_jacobian_by_state_counterexample", "Pygom.C13.aug_jacobian_by_state_as_coded_refuted",
-                     "Pygom.C13.matToVecSens_vecToMatSens", "Pygom.C13.vecToMatSens_matToVecSens"]}
-BUDGET = {"quick": {"points": 70, "nP0": 10, "integrated": 20, "cython": 1},
-          "thorough": {"points": 1600, "nP0": 200, "integrated": 260, "cython": 6}}
-RULE = ("random autonomous model definitions (1-5 states, 1-5 parameters and parameter-free variants, every rate kind, "
-        "derived parameters, explicit ODE terms) at a random rational state/parameter point with random rational "
-        "sensitivity values; both arrangements; every point is visited again after model.parameters was re-assigned and once more "
-        "after the first values were restored (history independence); a point case is non-trivial when jacobian and grad both have a non-zero "
-        "entry and nS*nP >= 2 (nS >= 2 for parameter-free models); an integrated case when the integration succeeded and "
-        "some sensitivity exceeds 1e-3")
+                     "Pygom.C13.matToVecSens_vecToMatSens", "Pygom.C13.vecToMatSens_matToVecSens",
+                     "Pygom.C13.session_is_pure", "Pygom.C13.earlier_results_kept", "Pygom.C13.revisit_reproduces",
+                     "Pygom.C13.instances_do_not_interact", "Pygom.C13.memo_keyed_on_point_counterexample"]}
+BUDGET = {"quick": {"points": 70, "timed": 16, "nP0": 10, "integrated": 20, "cython": 1},
+          "thorough": {"points": 1600, "timed": 320, "nP0": 200, "integrated": 260, "cython": 6}}
+RULE = ("random model definitions (1-5 states, 1-5 parameters and parameter-free variants, every rate kind, derived parameters, "
+        "explicit ODE terms; `points`/`nP0` autonomous, `timed` with periodic rates) at a random rational state/parameter point with "
+        "random rational sensitivity values; both arrangements.  Every point case is a SESSION on the live instance (counts in the tag "
+        "histogram): all 6 primary entry points plus their `_T` twins and the component evaluators (`via=` tags); `form:*` - the same "
+        "point in 5 further float containers and an integer-valued point (one in three the natural start [N,1,0..]+zeros(+identity)) in 8 "
+        "containers incl. int64/int32 ndarray and lists/tuples of Python ints, each with a drawn form of t; `probe:revisit-time` - same "
+        "state at another time and back; `probe:sibling:*` - a second live instance (permuted declaration order / other definition / one "
+        "parameter fewer / deepcopy) evaluated at the same numbers in between; `probe:revisit` - model.parameters re-assigned "
+        "(`reassign:*` form) and restored; `probe:revisit-definition:*` - an event, transition, birth/death or ODE term added to the live "
+        "model, compared with a fresh model of the final definition; `probe:kept` - all returned arrays and all argument objects compared "
+        "with their snapshots at the end.  A point case is non-trivial when jacobian and grad both have a non-zero entry and nS*nP >= 2 "
+        "(nS >= 2 for parameter-free models); an integrated case when the integration succeeded and some sensitivity exceeds 1e-3")
 ASSUMPTIONS = ["PARTIAL: that the solution of the variational equations IS dx(t)/dtheta resp. dx(t)/dx0 (smooth dependence of ODE "
                "flows on parameters and initial values) is classical and not proved here; it is validated per run against finite "
                "differences of reference solutions",
                "aug_jacobian_is_derivative takes as hypotheses that jacobian/grad/diff_jacobian/grad_jacobian are the partial "
                "derivatives they are named after (C03) and that second partials commute (C^2 right-hand side); symmetry of "
                "diff_jacobian is re-checked exactly on every generated model",
-               "scipy DOP853 at rtol=atol=1e-12 approximates the flow to ~1e-10 on the short horizons used"]
+               "scipy DOP853 at rtol=atol=1e-12 approximates the flow to ~1e-10 on the short horizons used",
+               "the direct oracle's inputs f, J, G, dJ/dx, dG/dx are the real evaluators called with float ndarrays (C03's subject), "
+               "taken before the session or from fresh instances; float32 containers are not judged (numpy computes parts of the "
+               "right-hand side in single precision: 1e-8 relative, inside no stated tolerance)"]
 TRUSTED = ["harness generator, AST printer and interpreter", "Lean driver JSON codec and list<->function glue (Sens.ofList/toList)",
            "numpy float arithmetic within the stated tolerances"]
+
+ARR = {False: "by_parameter", True: "by_state"}
+# containers the unchanged pygom accepts for the augmented point (established on the unchanged tree; a form it accepts
+# must give right answers, so an exception on any of these is a violation)
+FLOAT_FORMS = ["ndarray", "list", "tuple", "list-npfloat", "strided", "readonly"]
+INT_FORMS = ["ndarray", "int64", "int32", "list-int", "tuple-int", "list-npint", "object-int", "list"]
+T_FORMS = ["float", "npfloat", "0d"]
+T_FORMS_INT = ["float", "npfloat", "0d", "int", "npint"]
+REASSIGN_FORMS = ["list", "tuple", "ndarray", "dict", "partial-dict"]
+PRIMARY_NAME = {"rhs": "ode_and_sensitivity", "jac": "ode_and_sensitivity_jacobian", "rhsIV": "ode_and_sensitivityIV",
+                "jacIV": "ode_and_sensitivityIV_jacobian"}
 
 
 # ---------------------------------------------------------------------------------------------------------
@@ -64,9 +110,70 @@ def _rat(rng, lo, hi, dens=(1, 2, 3, 4)):
     return Fraction(rng.randint(lo * d, hi * d), d)
 
 
-def make_point_case(r, nP0=False, backend="lambda"):
-    spec, meta = gen.gen_model(r, allow_time=False, min_events=1, max_states=5, max_params=5)
+def gen_extra_op(r, states, params):
+    """something added to the live model later: an event, a legacy transition / birth-death, or an explicit ODE term,
+    with a rate that is not linear in the states (so that J, dJ/dx and dG/dx all change)"""
+    kinds = [("mass", 4), ("saturating", 2), ("linear", 1)]
+    how = r.choice(["add_event", "add_event", "add_ode", "add_legacy"])
+    if how == "add_ode":
+        _, rate = gen.gen_rate(r, states, params, kinds)
+        if r.random() < 0.5:
+            rate = E.neg(rate)
+        return {"op": "add_ode", "t": {"type": "ODE", "origin": r.choice(states), "dest": None, "mag": E.num(1), "eq": rate}}
+    proc = gen.gen_processes(r, states, params, 1, kinds, max_trans=(1 if how == "add_legacy" else 2), sym_mag=False, max_mag=2)[0]
+    if how == "add_legacy":
+        tr = proc["transitions"][0]
+        return {"op": "add_transition" if tr["type"] == "T" else "add_birth_death", "t": gen.transition_json(tr, proc["rate"])}
+    return {"op": "add_event", "rate": proc["rate"], "transitions": [gen.transition_json(t) for t in proc["transitions"]]}
+
+
+def gen_probes(r, states, params, tq, nP0_values=None):
+    """everything the session needs beyond the model and the first point; drawn from the case's own generator so that
+    the case JSON determines the whole session"""
+    nS, nP = len(states), len(params)
+    pr = {}
+    # integer-valued point
+    if r.random() < 0.34:
+        xs = [r.choice([999, 999, 500, 120, 3000000]), 1] + [0] * nS
+        xi = xs[:nS]
+        ip = {"x": xi, "s": [0] * (nS * nP), "s0": [1 if a == b else 0 for b in range(nS) for a in range(nS)], "t": 0, "natural": True}
+    else:
+        ip = {"x": [r.choice([0, 1, 2, 3, 5, 8, 13, 40]) for _ in range(nS)], "s": [r.randint(-3, 3) for _ in range(nS * nP)],
+              "s0": [r.randint(-2, 2) for _ in range(nS * nS)], "t": r.randint(0, 3), "natural": False}
+    pr["ipoint"] = ip
+    forms = [["P", c, r.choice(T_FORMS)] for c in FLOAT_FORMS[1:]]
+    forms += [["I", c, r.choice(T_FORMS_INT)] for c in INT_FORMS]
+    r.shuffle(forms)
+    pr["forms"] = forms
+    pr["secondary_tform"] = r.choice(T_FORMS)
+    pr["t2"] = str(Fraction(tq) + Fraction(r.choice([1, 2, 3, 4, 5, 7]), 12))
+    pr["reassign"] = r.choice(REASSIGN_FORMS)
+    pr["reassign_keep"] = [r.random() < 0.5 for _ in range(nP)]        # partial dict: parameters left as they are
+    if nP and all(pr["reassign_keep"]):
+        pr["reassign_keep"][r.randrange(nP)] = False
+    extra = gen_extra_op(r, states, params or ["_c0"])
+    if nP0_values is not None:
+        extra = subst_params(extra, dict(nP0_values, _c0=Fraction(1, 3)))
+    elif not params:
+        extra = subst_params(extra, {"_c0": Fraction(1, 3)})
+    pr["extra"] = extra
+    pr["extend"] = True
+    variants = ["permuted", "other-definition", "deepcopy"] + (["fewer-params"] if nP >= 2 else [])
+    ps, pp = list(range(nS)), list(range(nP))
+    r.shuffle(ps); r.shuffle(pp)
+    pr["sibling"] = {"variant": r.choice(variants), "perm_states": ps, "perm_params": pp, "drop": r.randrange(nP) if nP else 0,
+                     "values": [str(Fraction(r.randint(1, 20), r.choice([7, 10, 13]))) for _ in range(nP)]}
+    return pr
+
+
+def make_point_case(r, nP0=False, backend="lambda", timed=False):
+    if timed:
+        spec, meta = gen.gen_model(r, allow_time=True, min_events=1, max_states=5, max_params=5,
+                                   kinds=[("linear", 2), ("mass", 3), ("saturating", 2), ("exponential", 1), ("periodic", 5)])
+    else:
+        spec, meta = gen.gen_model(r, allow_time=False, min_events=1, max_states=5, max_params=5)
     env = gen.rand_point(r, meta)
+    vals = None
     if nP0:
         vals = {p: env[p] for p in meta["params"]}
         spec = subst_params(spec, vals)
@@ -74,9 +181,11 @@ def make_point_case(r, nP0=False, backend="lambda"):
         meta = dict(meta, params=[])
     nS, nP = len(meta["states"]), len(meta["params"])
     nz = nS * nP + nS * nS
-    return {"kind": "point", "spec": spec, "meta": {"states": meta["states"], "params": meta["params"], "kinds": meta["kinds"]},
+    case = {"kind": "point", "spec": spec, "meta": {"states": meta["states"], "params": meta["params"], "kinds": meta["kinds"]},
             "point": {k: str(v) for k, v in env.items() if not (nP0 and k not in meta["states"] and k != "t")},
             "svals": [str(_rat(r, -3, 3)) for _ in range(nz)], "nP0": nP0, "backend": backend}
+    case["probes"] = gen_probes(r, meta["states"], meta["params"], env["t"], vals)
+    return case
 
 
 def make_int_case(r, nP0=False):
@@ -94,25 +203,34 @@ def make_int_case(r, nP0=False):
         meta = dict(meta, params=[])
     return {"kind": "integrated", "spec": spec, "meta": {"states": meta["states"], "params": meta["params"], "kinds": meta["kinds"]},
             "point": {k: str(v) for k, v in env.items() if k in meta["states"] or k in meta["params"] or k == "t"},
-            "T": r.choice([0.5, 1.0]), "by_state": r.random() < 0.3, "nP0": nP0}
+            "T": r.choice([0.5, 1.0]), "by_state": r.random() < 0.3, "nP0": nP0,
+            # secondary entry points: the `_T` twins are what scipy's solve_ivp takes directly
+            "entry": r.choice(["plain", "T"])}
 
 
 def make_cases(rng, tier, budget):
     cases = []
     for i in range(budget["points"]):
-        cases.append(make_point_case(random.Random(rng.getrandbits(64)), backend="cython" if i < budget["cython"] else "lambda"))
+        cy = i < budget["cython"]
+        c = make_point_case(random.Random(rng.getrandbits(64)), backend="cython" if cy else "lambda")
+        if cy and tier == "quick":
+            c["probes"]["extend"] = False          # re-compiling five cython evaluators costs ~30 s: thorough tier only
+        cases.append(c)
     for i in range(budget["nP0"]):
         cases.append(make_point_case(random.Random(rng.getrandbits(64)), nP0=True))
     for i in range(budget["integrated"]):
         cases.append(make_int_case(random.Random(rng.getrandbits(64)), nP0=(i % 7 == 6)))
+    for i in range(budget.get("timed", 0)):
+        cases.append(make_point_case(random.Random(rng.getrandbits(64)), timed=True))
     return cases
 
 
 def search_cases(rng, tier, budget):
-    return [make_point_case(random.Random(rng.getrandbits(64))) for _ in range(3 * budget["points"])]
+    return [make_point_case(random.Random(rng.getrandbits(64)), timed=(i % 4 == 3)) for i in range(3 * budget["points"])]
 
 
 # ---------------------------------------------------------------------------------------------------------
+# direct oracle: explicit index loops
 def expected_rhs(nS, nP, f, J, G, z, by_state):
     """the documented layout, written with explicit loops (direct oracle)"""
     out = np.zeros(nS + nS * nP)
@@ -138,9 +256,67 @@ def expected_rhs_iv(nS, nP, f, J, G, z):
     return out
 
 
+def expected_gs(nS, nP, DJ, z):
+    """d/dx_c of (J.S)[i][k], by parameter: row k*nS+i, column c;  DJ[i*nS+l][c] = d2 f_i / dx_l dx_c"""
+    out = np.zeros((nS * nP, nS))
+    for k in range(nP):
+        for i in range(nS):
+            for c in range(nS):
+                out[k * nS + i, c] = sum(DJ[i * nS + l][c] * z[nS + k * nS + l] for l in range(nS))
+    return out
+
+
+def expected_jac(nS, nP, J, DJ, GJ, z, by_state):
+    """entry (r, c) = d(component r of the augmented right-hand side)/d z_c, written out;  GJ[k*nS+i][c] = d G[i][k] / dx_c"""
+    n = nS + nS * nP
+    out = np.zeros((n, n))
+    out[:nS, :nS] = J
+    for i in range(nS):
+        for k in range(nP):
+            r = nS + (i * nP + k if by_state else k * nS + i)
+            for c in range(nS):
+                out[r, c] = GJ[k * nS + i][c] + sum(DJ[i * nS + l][c] * z[nS + (l * nP + k if by_state else k * nS + l)] for l in range(nS))
+            for l in range(nS):
+                out[r, nS + (l * nP + k if by_state else k * nS + l)] = J[i][l]
+    return out
+
+
+def expected_jac_iv(nS, nP, J, DJ, GJ, z):
+    o = nS + nS * nP
+    n = o + nS * nS
+    out = np.zeros((n, n))
+    out[:o, :o] = expected_jac(nS, nP, J, DJ, GJ, z, False)
+    for i in range(nS):
+        for k in range(nS):
+            r = o + k * nS + i
+            for c in range(nS):
+                out[r, c] = sum(DJ[i * nS + l][c] * z[o + k * nS + l] for l in range(nS))
+            for l in range(nS):
+                out[r, o + k * nS + l] = J[i][l]
+    return out
+
+
+def expected_all(nS, nP, D, z, ziv):
+    """every observable of one mathematical point from the oracle inputs D = (f, J, G, DJ, GJ)"""
+    f, J, G, DJ, GJ = D["f"], D["J"], D["G"], D["DJ"], D["GJ"]
+    ex = {}
+    if nP >= 1:
+        for bs in (False, True):
+            a = ARR[bs]
+            ex["rhs:" + a] = expected_rhs(nS, nP, f, J, G, z, bs)
+            ex["sens:" + a] = ex["rhs:" + a][nS:]
+            ex["jac:" + a] = expected_jac(nS, nP, J, DJ, GJ, z, bs)
+        ex["gs"] = expected_gs(nS, nP, DJ, z)
+    ex["rhsIV"] = expected_rhs_iv(nS, nP, f, J, G, ziv)
+    ex["sensIV"] = ex["rhsIV"][nS:]
+    ex["jacIV"] = expected_jac_iv(nS, nP, J, DJ, GJ, ziv)
+    return ex
+
+
 def _call(fn):
     try:
-        return np.asarray(fn(), float), None
+        # a COPY: what is compared later must not be an alias of a buffer the code under test may write to again
+        return np.array(fn(), dtype=float), None
     except Exception as exc:   # the real code raising on a well-formed call is itself an observation
         return None, "%s: %s" % (type(exc).__name__, str(exc)[:160])
 
@@ -154,11 +330,251 @@ def _sig(base, nS, nP):
     return s
 
 
+def derivs(inst, nS, nP, x, t, keep=None, xform=None):
+    """oracle inputs at (x, t) for the parameter values `inst` holds now: the real evaluators, called with a fresh float
+    ndarray (or, for the evaluator-level form probe, the container `xform`), every result copied at once.
+    `keep` collects (name, returned object, copy) for the aliasing probe."""
+    out = {}
+    def one(name, shape):
+        try:
+            raw = getattr(inst, name)(np.array([float(v) for v in x], float) if xform is None else container(x, xform), float(t))
+            v = np.array(raw, dtype=float)
+        except Exception as exc:
+            raise RuntimeError("%s: %s" % (type(exc).__name__, str(exc)[:160]))
+        if keep is not None and isinstance(raw, np.ndarray):
+            keep.append((name, raw, v.copy()))
+        return v.reshape(shape)
+    out["f"] = one("ode", (nS,))
+    out["J"] = one("jacobian", (nS, nS))
+    out["G"] = one("grad", (nS, nP)) if nP else np.zeros((nS, 0))
+    out["DJ"] = one("diff_jacobian", (nS * nS, nS))
+    out["GJ"] = one("grad_jacobian", (nS * nP, nS)) if nP else np.zeros((0, nS))
+    if not all(np.all(np.isfinite(v)) for v in out.values()):
+        raise FloatingPointError("non-finite derivative object")
+    out["scale"] = 1.0 + max([float(np.max(np.abs(out[k]))) if out[k].size else 0.0 for k in ("f", "J", "G")])
+    out["jscale"] = 1.0 + max([float(np.max(np.abs(out[k]))) if out[k].size else 0.0 for k in ("J", "DJ", "GJ")])
+    return out
+
+
+# ---------------------------------------------------------------------------------------------------------
+# input forms
+def container(vq, form):
+    """the numbers vq (Fractions) in the container `form`; int forms need integer values"""
+    fl = [float(q) for q in vq]
+    if form == "ndarray":
+        return np.array(fl, float)
+    if form == "list":
+        return list(fl)
+    if form == "tuple":
+        return tuple(fl)
+    if form == "list-npfloat":
+        return [np.float64(v) for v in fl]
+    if form == "strided":
+        return np.repeat(np.array(fl, float), 2)[::2]
+    if form == "readonly":
+        a = np.array(fl, float)
+        a.setflags(write=False)
+        return a
+    iv = [int(q) for q in vq]
+    assert all(Fraction(i) == Fraction(q) for i, q in zip(iv, vq)), "integer form for a non-integer point"
+    if form == "int64":
+        return np.array(iv, np.int64)
+    if form == "int32":
+        return np.array(iv, np.int32)
+    if form == "list-int":
+        return list(iv)
+    if form == "tuple-int":
+        return tuple(iv)
+    if form == "list-npint":
+        return [np.int64(v) for v in iv]
+    if form == "object-int":
+        return np.array(iv, object)
+    raise ValueError(form)
+
+
+def time_form(tq, tform):
+    if tform == "float":
+        return float(tq)
+    if tform == "npfloat":
+        return np.float64(float(tq))
+    if tform == "0d":
+        return np.array(float(tq))
+    assert Fraction(int(tq)) == Fraction(tq)
+    if tform == "int":
+        return int(tq)
+    if tform == "npint":
+        return np.int64(int(tq))
+    raise ValueError(tform)
+
+
+def is_int_form(form):
+    return form in ("int64", "int32", "list-int", "tuple-int", "list-npint", "object-int")
+
+
+def bundle(pt, nS, nP, form):
+    """the argument objects of every entry point for the mathematical point pt, all in the container `form`
+    (fresh objects: nothing is shared between calls)"""
+    zq = pt["x"] + pt["s"]
+    mdt = np.int64 if is_int_form(form) else float
+    conv = (lambda q: int(q)) if is_int_form(form) else (lambda q: float(q))
+    S = [[conv(pt["s"][k * nS + l]) for k in range(nP)] for l in range(nS)]
+    Sb = [[conv(pt["s"][l * nP + k]) for k in range(nP)] for l in range(nS)]
+    IV = [[conv(pt["s0"][k * nS + l]) for k in range(nS)] for l in range(nS)]
+    return {"z": container(zq, form), "ziv": container(zq + pt["s0"], form), "state": container(pt["x"], form),
+            "sens": container(pt["s"], form), "sensiv": container(pt["s"] + pt["s0"], form),
+            "S": np.array(S, mdt).reshape(nS, nP), "S_bs": np.array(Sb, mdt).reshape(nS, nP), "IV": np.array(IV, mdt).reshape(nS, nS)}
+
+
+def entry_table(nS, nP):
+    """every way into the sensitivity systems: kind (what the oracle calls it), signature base, `via` (None = primary)"""
+    T = []
+    def add(kind, sig, via, fn, args):
+        T.append({"kind": kind, "sig": sig, "via": via, "fn": fn, "args": args})
+    if nP >= 1:
+        for bs in (False, True):
+            a = ARR[bs]
+            Sn = "S_bs" if bs else "S"
+            add("rhs:" + a, "sens-rhs:" + a, None, lambda m, B, t, bs=bs: m.ode_and_sensitivity(B["z"], t, bs), ("z",))
+            add("rhs:" + a, "sens-rhs:" + a, "ode_and_sensitivity_T", lambda m, B, t, bs=bs: m.ode_and_sensitivity_T(t, B["z"], bs), ("z",))
+            add("sens:" + a, "sens-rhs:" + a, "sensitivity", lambda m, B, t, bs=bs: m.sensitivity(B["sens"], t, B["state"], bs), ("sens", "state"))
+            add("sens:" + a, "sens-rhs:" + a, "sensitivity_T", lambda m, B, t, bs=bs: m.sensitivity_T(t, B["sens"], B["state"], bs), ("sens", "state"))
+            add("sens:" + a, "sens-rhs:" + a, "eval_sensitivity", lambda m, B, t, bs=bs, Sn=Sn: m.eval_sensitivity(B[Sn], t, B["state"], bs), (Sn, "state"))
+            add("jac:" + a, "aug-jacobian:" + a, None, lambda m, B, t, bs=bs: m.ode_and_sensitivity_jacobian(B["z"], t, bs), ("z",))
+            add("jac:" + a, "aug-jacobian:" + a, "ode_and_sensitivity_jacobian_T", lambda m, B, t, bs=bs: m.ode_and_sensitivity_jacobian_T(t, B["z"], bs), ("z",))
+        add("gs", "sens-jacobian-state", "sens_jacobian_state", lambda m, B, t: m.sens_jacobian_state(B["z"], t), ("z",))
+        add("gs", "sens-jacobian-state", "sens_jacobian_state_T", lambda m, B, t: m.sens_jacobian_state_T(t, B["z"]), ("z",))
+        add("gs", "sens-jacobian-state", "eval_sens_jacobian_state",
+            lambda m, B, t: m.eval_sens_jacobian_state(time=t, state=B["state"], sens=B["sens"]), ("state", "sens"))
+    add("rhsIV", "IV-rhs", None, lambda m, B, t: m.ode_and_sensitivityIV(B["ziv"], t), ("ziv",))
+    add("rhsIV", "IV-rhs", "ode_and_sensitivityIV_T", lambda m, B, t: m.ode_and_sensitivityIV_T(t, B["ziv"]), ("ziv",))
+    add("sensIV", "IV-rhs", "sensitivityIV", lambda m, B, t: m.sensitivityIV(B["sensiv"], t, B["state"]), ("sensiv", "state"))
+    add("sensIV", "IV-rhs", "sensitivityIV_T", lambda m, B, t: m.sensitivityIV_T(t, B["sensiv"], B["state"]), ("sensiv", "state"))
+    add("sensIV", "IV-rhs", "eval_sensitivityIV", lambda m, B, t: m.eval_sensitivityIV(B["S"], B["IV"], t, B["state"]), ("S", "IV", "state"))
+    add("jacIV", "aug-jacobian:IV", None, lambda m, B, t: m.ode_and_sensitivityIV_jacobian(B["ziv"], t), ("ziv",))
+    add("jacIV", "aug-jacobian:IV", "ode_and_sensitivityIV_jacobian_T", lambda m, B, t: m.ode_and_sensitivityIV_jacobian_T(t, B["ziv"]), ("ziv",))
+    return T
+
+
+def _snapshot(o):
+    if isinstance(o, np.ndarray):
+        return ("ndarray", o.dtype.str, o.shape, o.tolist())
+    if isinstance(o, (list, tuple)):
+        return (type(o).__name__, [(type(v).__name__, repr(v)) for v in o])
+    return (type(o).__name__, repr(o))
+
+
+class Session:
+    """calls on live instances; keeps every returned array OBJECT together with a copy made at return time, and every
+    argument object together with a snapshot made before the call"""
+
+    def __init__(self, nS, nP, viol, mism, tags):
+        self.nS, self.nP, self.viol, self.mism, self.tags = nS, nP, viol, mism, tags
+        self.kept = []
+        self.calls = 0
+
+    def violation(self, what, sigbase, detail):
+        self.viol.append({"what": what, "signature": _sig(sigbase, self.nS, self.nP), "detail": detail})
+
+    def call(self, label, sigbase, thunk, args):
+        """returns (value as float ndarray - a copy -, error string)"""
+        snaps = [(n, o, _snapshot(o)) for n, o in args]
+        self.calls += 1
+        try:
+            res = thunk()
+        except Exception as exc:
+            return None, "%s: %s" % (type(exc).__name__, str(exc)[:160])
+        parts = list(res) if isinstance(res, tuple) else [res]
+        try:
+            copies = [np.array(p, dtype=float) for p in parts]
+        except Exception as exc:
+            return None, "result not numeric: %s" % str(exc)[:120]
+        self.kept.append((label, sigbase, [(p, np.array(p, copy=True)) for p in parts if isinstance(p, np.ndarray)], snaps))
+        return (np.concatenate([c.ravel() for c in copies]) if isinstance(res, tuple) else copies[0]), None
+
+    def finish(self):
+        """after the last call: nothing returned earlier and nothing passed in may have changed"""
+        n = 0
+        for label, sigbase, parts, snaps in self.kept:
+            for p, c in parts:
+                n += 1
+                if p.shape != c.shape or not np.array_equal(np.asarray(p, float), np.asarray(c, float), equal_nan=True):
+                    self.violation("the array returned by %s was changed by a later call (the caller's result is a view of something "
+                                   "the model writes to again)" % label, sigbase + ":kept-result-changed",
+                                   worst(np.asarray(p, float).ravel(), np.asarray(c, float).ravel()) if p.shape == c.shape else "shape changed")
+            for name, o, s in snaps:
+                if _snapshot(o) != s:
+                    # a pure side effect: C13 says what the entry points RETURN, not that they leave their arguments alone.
+                    # Every returned value was judged against the oracle for the point as it was handed in, and kept results
+                    # are compared above, so wrong values caused by such a write are violations there.  The write itself is
+                    # only a disagreement with the Lean model (pure functions cannot change their arguments): tag + mismatch.
+                    self.tags.append("side-effect:argument-modified:" + sigbase)
+                    self.mism.append({"what": "%s changed its argument `%s` (the Lean functions are pure)" % (label, name),
+                                      "detail": "%s -> %s" % (str(s)[:150], str(_snapshot(o))[:150])})
+        return n
+
+
+def exact_at(lr, env):
+    """exact values of the driver's derivative expressions at env; None when undefined there or when a value is too
+    long to be sent to the driver as a decimal fraction (exp(-3e6) has a million digits)"""
+    try:
+        out = ([ev_frac(e, env) for e in lr["ode"]], [[ev_frac(e, env) for e in row] for row in lr["jac"]],
+               [[ev_frac(e, env) for e in row] for row in lr["grad"]], [[ev_frac(e, env) for e in row] for row in lr["djac"]],
+               [[ev_frac(e, env) for e in row] for row in lr["gjac"]])
+    except (E.Undefined, ZeroDivisionError, OverflowError, ValueError):
+        return None
+    flat = list(out[0]) + [v for m in out[1:] for row in m for v in row]
+    if any(abs(v.numerator).bit_length() > 3000 or v.denominator.bit_length() > 3000 for v in flat):
+        return None
+    return out
+
+
+def lean_expect(nS, nP, ex, zq, zivq):
+    """kind -> [(variant name, thunk -> float array)]: the Lean model's pure functions on the exact derivative objects"""
+    fq, Jq, Gq, DJq, GJq = ex
+    common = {"nS": nS, "nP": nP, "f": fvec(fq), "J": fmat(Jq), "G": fmat(Gq)}
+    jcommon = {"nS": nS, "nP": nP, "J": fmat(Jq), "GJ": fmat(GJq), "DJ": fmat(DJq)}
+    out = {}
+    if nP >= 1:
+        for bs in (False, True):
+            a = ARR[bs]
+            out["rhs:" + a] = [("as-coded", lambda bs=bs: to_float(layout("odeAndSensitivity", z=fvec(zq), byState=bs, **common)))]
+            v = [("as-coded", lambda bs=bs: to_float(layout("odeAndSensitivityJacobian", z=fvec(zq), byState=bs, **jcommon)))]
+            if bs:
+                v.append(("repaired", lambda: to_float(layout("odeAndSensitivityJacobianByStateRepaired", z=fvec(zq), **jcommon))))
+            out["jac:" + a] = v
+    out["rhsIV"] = [("as-coded", lambda: to_float(layout("odeAndSensitivityIV", z=fvec(zivq), **common)))]
+    out["jacIV"] = [("as-coded", lambda: to_float(layout("odeAndSensitivityIVJacobian", z=fvec(zivq), **jcommon)))]
+    return out
+
+
+def assign_parameters(model, params, values, form, keep):
+    """model.parameters = ... in the drawn form; with `partial-dict` only the parameters not in `keep` are named"""
+    if form == "list":
+        model.parameters = [float(v) for v in values]
+    elif form == "tuple":
+        model.parameters = tuple(float(v) for v in values)
+    elif form == "ndarray":
+        model.parameters = np.array([float(v) for v in values])
+    elif form == "dict":
+        model.parameters = {p: float(v) for p, v in zip(params, values)}
+    elif form == "partial-dict":
+        model.parameters = {p: float(v) for p, v, k in zip(params, values, keep) if not k}
+    else:
+        raise ValueError(form)
+
+
 def run_point(case):
     spec, meta = case["spec"], case["meta"]
     tags, mism, viol = [], [], []
+    backend = case.get("backend", "lambda")
+    if "probes" not in case:
+        # an older (corpus) case: the session is drawn from the case itself
+        rp = random.Random(int(gen.case_hash(case), 16))
+        case = dict(case, probes=gen_probes(rp, list(meta["states"]), list(meta["params"]), Fraction(case["point"]["t"]),
+                                            None))
+    pr = case["probes"]
     lr = lean_assemble(spec, derivs=True)
-    model = pymodel.build(spec, backend=case.get("backend", "lambda"))
+    model = pymodel.build(spec, backend=backend)
     states = [str(s) for s in model.state_list]
     params = [str(p) for p in model.param_list]
     if lr.get("err") is not None or states != lr["states"] or params != lr["params"]:
@@ -169,17 +585,13 @@ def run_point(case):
     x = [float(env[s]) for s in states]
     th = [float(env[p]) for p in params]
     t = float(env["t"])
-    if nP:
-        model.parameters = th
-    tags += ["nS=%d" % nS, "nP=%d" % nP, "backend:" + case.get("backend", "lambda")] + ["rate:" + k for k in set(meta["kinds"])]
-    try:
-        fq = [ev_frac(e, env) for e in lr["ode"]]
-        Jq = [[ev_frac(e, env) for e in row] for row in lr["jac"]]
-        Gq = [[ev_frac(e, env) for e in row] for row in lr["grad"]]
-        DJq = [[ev_frac(e, env) for e in row] for row in lr["djac"]]
-        GJq = [[ev_frac(e, env) for e in row] for row in lr["gjac"]]
-    except E.Undefined:
+    tags += ["nS=%d" % nS, "nP=%d" % nP, "backend:" + backend] + ["rate:" + k for k in set(meta["kinds"])]
+    timed = "periodic" in meta["kinds"]
+    tags.append("time-dependent" if timed else "autonomous")
+    ex1 = exact_at(lr, env)
+    if ex1 is None:
         return {"nontrivial": False, "mismatches": mism, "violations": viol, "tags": tags + ["undefined_point"]}
+    fq, Jq, Gq, DJq, GJq = ex1
     exact = not any(k in ("exponential", "periodic") for k in meta["kinds"])
     # hypothesis of aug_jacobian_is_derivative: second partials commute  (exact on rational models)
     for e in range(nS):
@@ -189,170 +601,334 @@ def run_point(case):
                 if (u != v) if exact else (abs(u - v) > Fraction(1, 10 ** 30) * (1 + abs(u))):
                     mism.append({"what": "diff_jacobian not symmetric (hypothesis hsym)", "detail": "f_%d: d2/dx%d dx%d = %s but d2/dx%d dx%d = %s" % (e, a, b, u, b, a, v)})
     sv = [Fraction(s) for s in case["svals"]]
-    zq = [env[s] for s in states] + sv[:nS * nP]
-    zivq = zq + sv[nS * nP:nS * nP + nS * nS]
+    P = {"x": [env[s] for s in states], "s": sv[:nS * nP], "s0": sv[nS * nP:nS * nP + nS * nS], "t": env["t"]}
+    ip = pr["ipoint"]
+    I = {"x": [Fraction(v) for v in ip["x"]], "s": [Fraction(v) for v in ip["s"]], "s0": [Fraction(v) for v in ip["s0"]], "t": Fraction(ip["t"])}
+    P2 = dict(P, t=Fraction(pr["t2"]))
+    points = {"P": P, "I": I, "P2": P2}
+    zq = P["x"] + P["s"]
+    zivq = zq + P["s0"]
     z = np.array([float(q) for q in zq]); ziv = np.array([float(q) for q in zivq])
-    # the derivative objects of the real model at the point (tie of J, G, dJ, dG themselves; oracle inputs)
-    Jn, e1 = _call(lambda: model.jacobian(x, t))
-    Gn, e2 = _call(lambda: model.grad(x, t)) if nP else (np.zeros((nS, 0)), None)
-    fn_, e3 = _call(lambda: model.ode(x, t))
-    if e1 or e2 or e3:
-        viol.append({"what": "ode/jacobian/grad raised: %s" % (e1 or e2 or e3), "signature": _sig("evaluator:raises", nS, nP), "detail": json.dumps(case["point"])})
+
+    def zf(pt):
+        return np.array([float(q) for q in pt["x"] + pt["s"]]), np.array([float(q) for q in pt["x"] + pt["s"] + pt["s0"]])
+
+    # second parameter set (as before: every parameter moves)
+    env2 = dict(env)
+    for k, pn in enumerate(params):
+        env2[pn] = env[pn] * Fraction(3 + (k % 3), 2) + Fraction(1, 7 + k)
+    if pr["reassign"] == "partial-dict":
+        for pn, keep in zip(params, pr["reassign_keep"]):
+            if keep:
+                env2[pn] = env[pn]
+    th2 = [float(env2[pn]) for pn in params]
+
+    # ---- oracle inputs, BEFORE the session: the real f, J, G, dJ/dx, dG/dx at every (parameter set, point) the session
+    # will visit, so that the history under test consists of calls of the sensitivity entry points only
+    D = {}
+    kept_eval = []
+    try:
+        if nP:
+            model.parameters = th2
+            D[("th2", "P")] = derivs(model, nS, nP, x, t, kept_eval)
+            model.parameters = th
+        D[("th1", "P")] = derivs(model, nS, nP, x, t, kept_eval)
+        D[("th1", "P2")] = derivs(model, nS, nP, x, float(P2["t"]), kept_eval)
+    except (RuntimeError, FloatingPointError) as exc:
+        viol.append({"what": "ode/jacobian/grad raised: %s" % exc, "signature": _sig("evaluator:raises", nS, nP), "detail": json.dumps(case["point"])})
         return {"nontrivial": False, "mismatches": mism, "violations": viol, "tags": tags}
-    Jn = Jn.reshape(nS, nS); Gn = Gn.reshape(nS, nP); fn_ = fn_.ravel()
+    try:
+        D[("th1", "I")] = derivs(model, nS, nP, [float(v) for v in I["x"]], float(I["t"]), kept_eval)
+    except (RuntimeError, FloatingPointError):
+        tags.append("ipoint:undefined")
+    # diagnosis only: the evaluators themselves on fixed-width integer states.  With the lambda back-end numpy integer scalars
+    # reached the lambdified expressions and wrapped around (999**3*k as int32, 3e6**3 as int64) - a defect of the EVALUATORS
+    # (repaired in /repo by ea55e76; corpus/C13/int-state-wraparound.json).  The sensitivity entry points then return wrong values for the containers
+    # that carry such scalars; THOSE are the violations (judged below like every other form), under signatures that start
+    # with `int-state-wraparound:` so that this root cause is told apart from a fault in the assembly of J.S+G.
+    wrapped = {}
+    if ("th1", "I") in D:
+        for xform, carriers in (("int32", ("int32",)), ("int64", ("int64", "list-npint"))):
+            try:
+                Di = derivs(model, nS, nP, I["x"], float(I["t"]), None, xform)
+                bad = [k for k in ("f", "J", "G", "DJ", "GJ") if not close_arr(Di[k], D[("th1", "I")][k], 1e-9, 1e-9 * D[("th1", "I")]["jscale"])]
+            except (RuntimeError, FloatingPointError):
+                bad = []
+            if bad:
+                tags.append("evaluator:int-state-wraparound:" + xform)
+                for c_ in carriers:
+                    wrapped[c_] = xform
+    # J, G, dJ/dx, dG/dx feed J.S+G and the block Jacobians: an evaluator that hands out one internal buffer would make every
+    # J a caller kept from an earlier point silently become the J of the latest point (the oracle above copies at once)
+    # (jacobian, grad, ... are not entry points of C13: a disagreement with the pure Lean evaluators, tagged, not a violation
+    # of this property; every array RETURNED BY THE SENSITIVITY ENTRY POINTS is kept and compared in Session.finish, and that is
+    # a violation)
+    for name, raw, cp in kept_eval:
+        if raw.shape != cp.shape or not np.array_equal(np.asarray(raw, float), cp, equal_nan=True):
+            tags.append("evaluator:%s:kept-result-changed" % name)
+            mism.append({"what": "the array returned by %s(x,t) was changed by a later evaluation (the Lean evaluators are values)" % name,
+                         "detail": worst(np.asarray(raw, float).ravel(), cp.ravel()) if raw.shape == cp.shape else "shape changed"})
+    D1 = D[("th1", "P")]
+    Jn, Gn, fn_ = D1["J"], D1["G"], D1["f"]
     scale = 1.0 + max([abs(float(v)) for row in Jq for v in row] + [abs(float(v)) for row in Gq for v in row] + [abs(float(v)) for v in fq])
     if not close_arr(Jn, to_float(fmat(Jq)) if nS else Jn, 1e-9, 1e-10 * scale):
         mism.append({"what": "jacobian(x,t) vs Lean jacobianEqn", "detail": worst(Jn, to_float(fmat(Jq)))})
     if nP and not close_arr(Gn, to_float(fmat(Gq)), 1e-9, 1e-10 * scale):
         mism.append({"what": "grad(x,t) vs Lean gradEqn", "detail": worst(Gn, to_float(fmat(Gq)))})
-    DJn, e4 = _call(lambda: model.diff_jacobian(x, t))
-    if e4 is None and nS >= 2 and not close_arr(DJn.reshape(nS * nS, nS), to_float(fmat(DJq)), 1e-9, 1e-10 * scale):
-        mism.append({"what": "diff_jacobian(x,t) vs Lean diffJacobianEqn", "detail": worst(DJn.reshape(nS * nS, nS), to_float(fmat(DJq)))})
-    if nP:
-        GJn, e5 = _call(lambda: model.grad_jacobian(x, t))
-        if e5 is None and nS >= 2 and not close_arr(GJn.reshape(nS * nP, nS), to_float(fmat(GJq)), 1e-9, 1e-10 * scale):
-            mism.append({"what": "grad_jacobian(x,t) vs Lean gradJacobianEqn", "detail": worst(GJn.reshape(nS * nP, nS), to_float(fmat(GJq)))})
+    if nS >= 2 and not close_arr(D1["DJ"], to_float(fmat(DJq)), 1e-9, 1e-10 * scale):
+        mism.append({"what": "diff_jacobian(x,t) vs Lean diffJacobianEqn", "detail": worst(D1["DJ"], to_float(fmat(DJq)))})
+    if nP and nS >= 2 and not close_arr(D1["GJ"], to_float(fmat(GJq)), 1e-9, 1e-10 * scale):
+        mism.append({"what": "grad_jacobian(x,t) vs Lean gradJacobianEqn", "detail": worst(D1["GJ"], to_float(fmat(GJq)))})
 
     zscale = 1.0 + float(np.max(np.abs(ziv)))
-    rtol, atol = 1e-9, 1e-9 * scale * zscale
-    common = {"nS": nS, "nP": nP, "f": fvec(fq), "J": fmat(Jq), "G": fmat(Gq)}
-    jcommon = {"nS": nS, "nP": nP, "J": fmat(Jq), "GJ": fmat(GJq), "DJ": fmat(DJq)}
+    rtol = 1e-9
+    ses = Session(nS, nP, viol, mism, tags)
+    ENT = entry_table(nS, nP)
+    PRIMARY = [e for e in ENT if e["via"] is None]
 
-    def check_rhs(name, real_fn, lean_out, expect, sigbase):
-        got, err = _call(real_fn)
-        if err:
-            viol.append({"what": "%s raised %s" % (name, err), "signature": _sig(sigbase + ":raises", nS, nP), "detail": json.dumps(case["point"])})
-            return
-        lo = to_float(lean_out)
-        if not close_arr(got.ravel(), lo, rtol, atol):
-            mism.append({"what": name + " vs Lean layout", "detail": worst(got.ravel(), lo)})
-        if not close_arr(got.ravel(), expect, 1e-8, 1e-8 * scale * zscale):
-            viol.append({"what": "%s is not (f, J.S+G%s) in the documented layout" % (name, ", J.S0" if "IV" in name else ""),
-                         "signature": _sig(sigbase, nS, nP), "detail": worst(got.ravel(), expect) + " nS=%d nP=%d" % (nS, nP)})
+    def visit(inst, Dk, pt, form, tform, entries, suffix, what_suffix, lean=None, fd_on=None, scale_l=None, sigprefix=""):
+        """call `entries` of `inst` at the mathematical point pt given in (form, tform); judge every result against the explicit
+        loops on the oracle inputs Dk (violations), the primary ones against the Lean layout when `lean` is given (mismatches)
+        and the Jacobians against finite differences of the real right-hand side when `fd_on`.  Returns kind -> value."""
+        zz, zziv = zf(pt)
+        exp = expected_all(nS, nP, Dk, zz, zziv)
+        zs = 1.0 + float(np.max(np.abs(zziv)))
+        got_all, fd_todo = {}, []
+        for e in entries:
+            B = bundle(pt, nS, nP, form)
+            tt = time_form(pt["t"], tform)
+            by = (",by_state=%s" % e["kind"].endswith("by_state")) if ":" in e["kind"] else ""
+            label = "%s(z,t%s)" % (e["via"] or PRIMARY_NAME[e["kind"].split(":")[0]], by)
+            sig0 = e["sig"] + ((":via=" + e["via"]) if e["via"] else "")
+            sigb = sigprefix + sig0 + suffix
+            got, err = ses.call(label + what_suffix, sig0, lambda e=e, B=B, tt=tt: e["fn"](inst, B, tt), [(a, B[a]) for a in e["args"]] + [("t", tt)])
+            if err:
+                ses.violation("%s raised %s%s" % (label, err, what_suffix), sigb + ":raises", json.dumps(case["point"]))
+                continue
+            want = exp[e["kind"]]
+            isjac = e["kind"].startswith("jac") or e["kind"] == "gs"
+            if isjac and got.size == want.size:
+                got = got.reshape(want.shape)
+            if e["via"] is None:
+                got_all[e["kind"]] = got
+            if lean is not None and e["kind"] in lean:
+                matched = None
+                atol_l = 1e-9 * (scale_l or Dk["scale"]) * zs
+                for vname, thunk in lean[e["kind"]]:
+                    lo = thunk()
+                    if lo.size == got.size and close_arr(got.ravel(), lo.ravel(), rtol, atol_l):
+                        matched = vname
+                        break
+                if matched is None:
+                    mism.append({"what": "%s vs Lean layout%s" % (label, what_suffix), "detail": worst(got.ravel(), lean[e["kind"]][0][1]().ravel())})
+                elif isjac:
+                    tags.append("%s:model-variant=%s" % (e["sig"], matched))
+            tol_abs = 1e-8 * (Dk["jscale"] if isjac else Dk["scale"]) * zs
+            if not close_arr(got, want, 1e-8, tol_abs):
+                if isjac:
+                    what = "%s%s is not the derivative of its right-hand side (explicit index loops on jacobian, diff_jacobian, grad_jacobian)" % (label, what_suffix)
+                else:
+                    what = "%s%s is not (f, J.S+G%s) in the documented layout" % (label, what_suffix, ", J.S0" if "IV" in e["kind"] else "")
+                ses.violation(what, sigb, worst(got, want) + " nS=%d nP=%d form=%s t=%s" % (nS, nP, form, tform))
+            if fd_on and e["via"] is None and e["kind"].startswith("jac"):
+                fd_todo.append((e, got, label, sigb))
+        # finite differences of the real right-hand side LAST: they call the instance at other points (and would refresh a memo)
+        for e, got, label, sigb in fd_todo:
+            if e["kind"] == "jacIV":
+                rhs = lambda w: np.asarray(inst.ode_and_sensitivityIV(w, float(pt["t"])), float).ravel()
+                w0 = zziv
+            else:
+                bs = e["kind"].endswith("by_state")
+                rhs = lambda w, bs=bs: np.asarray(inst.ode_and_sensitivity(w, float(pt["t"]), bs), float).ravel()
+                w0 = zz
+            fd, f0 = richardson_jac(rhs, w0)
+            tol_fd = 1e-6 * (1.0 + float(np.max(np.abs(f0))) + float(np.max(np.abs(fd))))
+            if got.shape == fd.shape and not close_arr(got, fd, 1e-6, tol_fd):
+                ses.violation("%s%s is not the derivative of its right-hand side (finite differences of the real function)" % (label, what_suffix),
+                              sigb, worst(got, fd) + " nS=%d nP=%d" % (nS, nP))
+        return got_all
 
-    def check_jac(name, real_jac, real_rhs, zz, lean_variants, sigbase):
-        got, err = _call(real_jac)
-        if err:
-            viol.append({"what": "%s raised %s" % (name, err), "signature": _sig(sigbase + ":raises", nS, nP), "detail": json.dumps(case["point"])})
-            return
-        n = len(zz)
-        got = got.reshape(n, n) if got.size == n * n else got
-        matched = None
-        for vname, thunk in lean_variants:
-            lo = to_float(thunk()).reshape(n, n)
-            if close_arr(got, lo, rtol, atol):
-                matched = vname
-                break
-        if matched is None:
-            mism.append({"what": name + " vs Lean layout", "detail": worst(got, to_float(lean_variants[0][1]()).reshape(n, n))})
-        else:
-            tags.append("%s:model-variant=%s" % (sigbase, matched))
-        fd, f0 = richardson_jac(lambda w: np.asarray(real_rhs(w), float).ravel(), zz)
-        tol_abs = 1e-6 * (1.0 + float(np.max(np.abs(f0))) + float(np.max(np.abs(fd))))
-        if not close_arr(got, fd, 1e-6, tol_abs):
-            viol.append({"what": "%s is not the derivative of its right-hand side (finite differences of the real function)" % name,
-                         "signature": _sig(sigbase, nS, nP), "detail": worst(got, fd) + " nS=%d nP=%d" % (nS, nP)})
+    def same_bits(first, again, when):
+        for kind in first:
+            a, b = first[kind], again.get(kind)
+            if b is not None and not (a.shape == b.shape and np.array_equal(a, b)):
+                ses.violation("%s at the same (z,t) with the same parameter values returns something else %s" % (kind, when),
+                              "history-dependent:" + kind.split(":")[0],
+                              worst(a.ravel(), b.ravel()) if a.shape == b.shape else "shape")
 
-    if nP >= 1:
-        for bs in (False, True):
-            arr = "by_state" if bs else "by_parameter"
-            check_rhs("ode_and_sensitivity(z,t,by_state=%s)" % bs, lambda: model.ode_and_sensitivity(z, t, bs),
-                      layout("odeAndSensitivity", z=fvec(zq), byState=bs, **common),
-                      expected_rhs(nS, nP, fn_, Jn, Gn, z, bs), "sens-rhs:" + arr)
-            variants = [("as-coded", lambda bs=bs: layout("odeAndSensitivityJacobian", z=fvec(zq), byState=bs, **jcommon))]
-            if bs:
-                variants.append(("repaired", lambda: layout("odeAndSensitivityJacobianByStateRepaired", z=fvec(zq), **jcommon)))
-            check_jac("ode_and_sensitivity_jacobian(z,t,by_state=%s)" % bs, lambda: model.ode_and_sensitivity_jacobian(z, t, bs),
-                      lambda w: model.ode_and_sensitivity(w, t, bs), z, variants, "aug-jacobian:" + arr)
-    else:
+    if nP:
+        model.parameters = th
+    # ---- 1. first visit: float ndarray, Python float time; explicit loops, Lean layout, finite differences
+    lean1 = lean_expect(nS, nP, ex1, zq, zivq)
+    if nP == 0:
         tags.append("nP=0:ode_and_sensitivity-not-applicable")
-    check_rhs("ode_and_sensitivityIV(z,t)", lambda: model.ode_and_sensitivityIV(ziv, t),
-              layout("odeAndSensitivityIV", z=fvec(zivq), **common), expected_rhs_iv(nS, nP, fn_, Jn, Gn, ziv), "IV-rhs")
-    check_jac("ode_and_sensitivityIV_jacobian(z,t)", lambda: model.ode_and_sensitivityIV_jacobian(ziv, t),
-              lambda w: model.ode_and_sensitivityIV(w, t), ziv,
-              [("as-coded", lambda: layout("odeAndSensitivityIVJacobian", z=fvec(zivq), **jcommon))], "aug-jacobian:IV")
-    # ---- revisit: the same point (z, t) after the parameters were re-assigned, then after they were restored.
-    # The augmented right-hand sides and their Jacobians are functions of (z, t) and the CURRENT parameter values
-    # only (in the Lean model they are pure functions); anything remembered from an earlier call at the same
-    # point (a memo keyed on state and time, a cached J, G or S) shows here and nowhere else.
-    if nP >= 1 and not viol:
-        first = {}
-        for bs in (False, True):
-            first[("rhs", bs)] = _call(lambda: model.ode_and_sensitivity(z, t, bs))[0]
-            first[("jac", bs)] = _call(lambda: model.ode_and_sensitivity_jacobian(z, t, bs))[0]
-        first[("rhsIV",)] = _call(lambda: model.ode_and_sensitivityIV(ziv, t))[0]
-        first[("jacIV",)] = _call(lambda: model.ode_and_sensitivityIV_jacobian(ziv, t))[0]
-        env2 = dict(env)
-        for k, pn in enumerate(params):
-            env2[pn] = env[pn] * Fraction(3 + (k % 3), 2) + Fraction(1, 7 + k)
-        try:
-            fq2 = [ev_frac(e, env2) for e in lr["ode"]]
-            Jq2 = [[ev_frac(e, env2) for e in row] for row in lr["jac"]]
-            Gq2 = [[ev_frac(e, env2) for e in row] for row in lr["grad"]]
-            DJq2 = [[ev_frac(e, env2) for e in row] for row in lr["djac"]]
-            GJq2 = [[ev_frac(e, env2) for e in row] for row in lr["gjac"]]
-        except (E.Undefined, ZeroDivisionError):
-            fq2 = None
+    visit(model, D1, P, "ndarray", "float", PRIMARY, "", "", lean=lean1, fd_on=True, scale_l=scale)
+    # ---- 2. secondary entry points (`_T` twins, component evaluators): each is the same pure function as its primary
+    # in the Lean model (sensitivity / evalSensitivity / sensitivityIV are the definitions odeAndSensitivity(IV) unfolds to)
+    SECONDARY = [e for e in ENT if e["via"] is not None]
+    visit(model, D1, P, "ndarray", pr["secondary_tform"], SECONDARY, "", "")
+    for e in SECONDARY:
+        tags.append("via=" + e["via"])
+    # ---- 3. input form: the Lean functions take the mathematical point; a list, a tuple, an int array of the same numbers
+    # ARE that point, so every form pygom accepts is judged against the oracle for the point
+    for pname, form, tform in pr["forms"]:
+        if (pname == "I" and ("th1", "I") not in D) or (is_int_form(form) and pname != "I"):
+            continue
+        if form in wrapped:
+            visit(model, D[("th1", pname)], points[pname], form, tform, ENT, ":form=" + form,
+                  " [z as %s, t as %s; ode/jacobian/grad themselves differ between this %s state and the same state as float ndarray: "
+                  "fixed-width integer arithmetic inside the compiled expressions]" % (form, tform, wrapped[form]),
+                  sigprefix="int-state-wraparound:%s:" % wrapped[form])
+            tags += ["form:%s:%s" % (pname, form), "tform:" + tform]
+            continue
+        visit(model, D[("th1", pname)], points[pname], form, tform, ENT, ":form=" + form, " [z as %s, t as %s]" % (form, tform))
+        tags += ["form:%s:%s" % (pname, form), "tform:" + tform]
+    if ("th1", "I") in D:
+        envI = dict(env)
+        envI.update({s_: v for s_, v in zip(states, I["x"])})
+        envI["t"] = I["t"]
+        # (the 50-digit interpreter would spend half a minute on exp(-3e6*b): the Lean tie is for moderate points)
+        exI = exact_at(lr, envI) if max(abs(v) for v in I["x"]) <= 1000 else None
+        if exI is not None:
+            visit(model, D[("th1", "I")], I, "ndarray", "float", PRIMARY, ":form=ndarray", " [integer-valued point]",
+                  lean=lean_expect(nS, nP, exI, I["x"] + I["s"], I["x"] + I["s"] + I["s0"]))
+        tags.append("ipoint:natural-start" if ip.get("natural") else "ipoint:random")
+
+    # ---- 4. history on one instance.  In the Lean model the value returned is a function of (z, t) and the CURRENT derivative
+    # objects only (`session_is_pure`, `revisit_reproduces`); anything remembered from an earlier call at the same point (a memo
+    # keyed on state and time, a cached J, G, S or dJ/dx) shows here and nowhere else.  Every step below is preceded by a call at
+    # exactly (z, t), so a one-entry memo is primed.
+    first = visit(model, D1, P, "ndarray", "float", PRIMARY, "", "")
+    # 4a. same state, another time, and back
+    tags.append("probe:revisit-time:" + ("time-dependent" if timed else "autonomous"))
+    ex12 = exact_at(lr, dict(env, t=P2["t"]))
+    visit(model, D[("th1", "P2")], P2, "ndarray", "float", PRIMARY, ":revisit-time", " at the same state, other time",
+          lean=(lean_expect(nS, nP, ex12, zq, zivq) if ex12 is not None else None))
+    same_bits(first, visit(model, D1, P, "ndarray", "float", PRIMARY, ":revisit-time", " back at the first time"), "after a call at another time")
+    # 4b. a sibling instance evaluated at the same numbers in between (instances do not interact: `instances_do_not_interact`)
+    sb = pr["sibling"]
+    variant = sb["variant"]
+    sib, sib_err = None, None
+    try:
+        if variant == "deepcopy":
+            sib = copy.deepcopy(model)
+            sS, sP = nS, nP
+        else:
+            sspec = copy.deepcopy(spec)
+            plain = all(isinstance(s_, str) for s_ in (sspec["state"].get("list") or [""])) and not any(":" in s_ for s_ in states)
+            if variant in ("permuted", "other-definition"):
+                if plain:
+                    sspec["state"] = {"list": [states[i] for i in sb["perm_states"]]}
+                if nP:
+                    sspec["param"] = {"list": [params[i] for i in sb["perm_params"]]}
+            if variant == "other-definition":
+                sspec["then"] = list(sspec.get("then", [])) + [pr["extra"]]
+            if variant == "fewer-params":
+                drop = params[sb["drop"]]
+                sspec = subst_params(sspec, {drop: env[drop]})
+                sspec["param"] = {"list": [p for p in params if p != drop]}
+            sib = pymodel.build(sspec, backend="lambda")
+            sS, sP = len(sib.state_list), len(sib.param_list)
+        if sP:
+            sib.parameters = [float(Fraction(v)) for v in sb["values"]][:sP]
+        # the sibling sees the same numbers (same state tuple, same time) - what a memo keyed on them would confuse
+        Ps = {"x": P["x"], "s": (P["s"] + P["s0"])[:sS * sP], "s0": P["s0"], "t": P["t"]}
+        Dsib = derivs(sib, sS, sP, x, t)
+    except Exception as exc:
+        sib_err = "%s: %s" % (type(exc).__name__, str(exc)[:160])
+    if sib_err or sS != nS:
+        tags.append("probe:sibling:not-built")
+        if sib_err:
+            mism.append({"what": "sibling instance could not be built or evaluated", "detail": sib_err + " variant=" + variant})
+    else:
+        tags.append("probe:sibling:" + variant)
+        # the sibling is judged with its own numbers of parameters
+        sENT = entry_table(sS, sP)
+        sexp = expected_all(sS, sP, Dsib, *[np.array([float(q) for q in v]) for v in (Ps["x"] + Ps["s"], Ps["x"] + Ps["s"] + Ps["s0"])])
+        for e in sENT:
+            B = bundle(Ps, sS, sP, "ndarray")
+            label = "sibling(%s).%s" % (variant, e["via"] or e["kind"])
+            sigb = e["sig"] + ((":via=" + e["via"]) if e["via"] else "") + ":sibling-instance"
+            got, err = ses.call(label, e["sig"] + ((":via=" + e["via"]) if e["via"] else ""), lambda e=e, B=B: e["fn"](sib, B, t), [(a, B[a]) for a in e["args"]])
+            if err:
+                ses.violation("%s raised %s" % (label, err), sigb + ":raises", json.dumps(case["point"]))
+                continue
+            want = sexp[e["kind"]]
+            isjac = e["kind"].startswith("jac") or e["kind"] == "gs"
+            if got.size == want.size:
+                got = got.reshape(want.shape)
+            if not close_arr(got, want, 1e-8, 1e-8 * (Dsib["jscale"] if isjac else Dsib["scale"]) * zscale):
+                ses.violation("%s of a second live instance (%s) evaluated between two calls of the first is not what its own f, J, G give"
+                              % (label, variant), sigb, worst(got, want))
+        same_bits(first, visit(model, D1, P, "ndarray", "float", PRIMARY, ":after-sibling", " after a sibling instance was evaluated at the same numbers"),
+                  "after a sibling instance (%s) was evaluated" % variant)
+    # 4c. parameters re-assigned, then restored
+    if nP >= 1:
+        ex2 = exact_at(lr, env2)
+        if ex2 is None:
             tags.append("revisit:undefined_point")
-        if fq2 is not None:
-            tags.append("revisit")
-            model.parameters = [float(env2[pn]) for pn in params]
-            J2, _e1 = _call(lambda: model.jacobian(x, t)); G2, _e2 = _call(lambda: model.grad(x, t)); f2, _e3 = _call(lambda: model.ode(x, t))
-            if not (_e1 or _e2 or _e3):
-                J2 = J2.reshape(nS, nS); G2 = G2.reshape(nS, nP); f2 = f2.ravel()
-                scale2 = 1.0 + max([abs(float(v)) for row in Jq2 for v in row] + [abs(float(v)) for row in Gq2 for v in row] + [abs(float(v)) for v in fq2])
-                atol2 = 1e-9 * scale2 * zscale
-                common2 = {"nS": nS, "nP": nP, "f": fvec(fq2), "J": fmat(Jq2), "G": fmat(Gq2)}
-                jcommon2 = {"nS": nS, "nP": nP, "J": fmat(Jq2), "GJ": fmat(GJq2), "DJ": fmat(DJq2)}
-
-                def again(name, real_fn, lean_thunks, expect, sig):
-                    got, err = _call(real_fn)
-                    if err:
-                        viol.append({"what": "%s raised %s after the parameters were re-assigned" % (name, err),
-                                     "signature": _sig(sig + ":revisit:raises", nS, nP), "detail": json.dumps(case["point"])})
-                        return
-                    if not any(close_arr(got.ravel(), to_float(th_()).ravel(), rtol, atol2) for th_ in lean_thunks):
-                        mism.append({"what": name + " vs Lean layout, same point after a parameter re-assignment",
-                                     "detail": worst(got.ravel(), to_float(lean_thunks[0]()).ravel())})
-                    if expect is not None and not close_arr(got.ravel(), expect, 1e-8, 1e-8 * scale2 * zscale):
-                        viol.append({"what": "%s evaluated again at the same (z,t) after model.parameters was re-assigned is not "
-                                             "(f, J.S+G) for the new parameter values" % name,
-                                     "signature": _sig(sig + ":revisit", nS, nP), "detail": worst(got.ravel(), expect) + " nS=%d nP=%d" % (nS, nP)})
-
-                for bs in (False, True):
-                    arr = "by_state" if bs else "by_parameter"
-                    again("ode_and_sensitivity(z,t,by_state=%s)" % bs, lambda: model.ode_and_sensitivity(z, t, bs),
-                          [lambda bs=bs: layout("odeAndSensitivity", z=fvec(zq), byState=bs, **common2)],
-                          expected_rhs(nS, nP, f2, J2, G2, z, bs), "sens-rhs:" + arr)
-                    jv = [lambda bs=bs: layout("odeAndSensitivityJacobian", z=fvec(zq), byState=bs, **jcommon2)]
-                    if bs:
-                        jv.append(lambda: layout("odeAndSensitivityJacobianByStateRepaired", z=fvec(zq), **jcommon2))
-                    fd, f0 = richardson_jac(lambda w, bs=bs: np.asarray(model.ode_and_sensitivity(w, t, bs), float).ravel(), z)
-                    gotj, errj = _call(lambda: model.ode_and_sensitivity_jacobian(z, t, bs))
-                    again("ode_and_sensitivity_jacobian(z,t,by_state=%s)" % bs, lambda: model.ode_and_sensitivity_jacobian(z, t, bs), jv, None,
-                          "aug-jacobian:" + arr)
-                    if errj is None and not close_arr(gotj.reshape(fd.shape), fd, 1e-6, 1e-6 * (1.0 + float(np.max(np.abs(f0))) + float(np.max(np.abs(fd))))):
-                        viol.append({"what": "ode_and_sensitivity_jacobian(z,t,by_state=%s) evaluated again at the same (z,t) after model.parameters "
-                                             "was re-assigned is not the derivative of its right-hand side" % bs,
-                                     "signature": _sig("aug-jacobian:%s:revisit" % arr, nS, nP), "detail": worst(gotj.reshape(fd.shape), fd)})
-                again("ode_and_sensitivityIV(z,t)", lambda: model.ode_and_sensitivityIV(ziv, t),
-                      [lambda: layout("odeAndSensitivityIV", z=fvec(zivq), **common2)], expected_rhs_iv(nS, nP, f2, J2, G2, ziv), "IV-rhs")
-                again("ode_and_sensitivityIV_jacobian(z,t)", lambda: model.ode_and_sensitivityIV_jacobian(ziv, t),
-                      [lambda: layout("odeAndSensitivityIVJacobian", z=fvec(zivq), **jcommon2)], None, "aug-jacobian:IV")
-                # back to the first parameter values: bit-for-bit what the first visit returned
-                model.parameters = th
-                back = {}
-                for bs in (False, True):
-                    back[("rhs", bs)] = _call(lambda: model.ode_and_sensitivity(z, t, bs))[0]
-                    back[("jac", bs)] = _call(lambda: model.ode_and_sensitivity_jacobian(z, t, bs))[0]
-                back[("rhsIV",)] = _call(lambda: model.ode_and_sensitivityIV(ziv, t))[0]
-                back[("jacIV",)] = _call(lambda: model.ode_and_sensitivityIV_jacobian(ziv, t))[0]
-                for key in first:
-                    a, b = first[key], back[key]
-                    if a is not None and b is not None and not np.array_equal(np.asarray(a), np.asarray(b)):
-                        viol.append({"what": "%s at the same (z,t) with the same parameter values returns something else after an intermediate "
-                                             "parameter re-assignment" % "/".join(str(k_) for k_ in key),
-                                     "signature": _sig("history-dependent:" + str(key[0]), nS, nP), "detail": worst(np.asarray(a, float).ravel(), np.asarray(b, float).ravel())})
+        else:
+            tags += ["revisit", "probe:revisit", "reassign:" + pr["reassign"]]
+            visit(model, D1, P, "ndarray", "float", PRIMARY, "", "")
+            assign_parameters(model, params, [env2[pn] for pn in params], pr["reassign"], pr["reassign_keep"])
+            visit(model, D[("th2", "P")], P, "ndarray", "float", PRIMARY, ":revisit",
+                  " evaluated again at the same (z,t) after model.parameters was re-assigned (%s)" % pr["reassign"],
+                  lean=lean_expect(nS, nP, ex2, zq, zivq), fd_on=True)
+            # back to the first parameter values: bit-for-bit what the first visit returned
+            model.parameters = th
+            same_bits(first, visit(model, D1, P, "ndarray", "float", PRIMARY, ":restored", " after the first parameter values were restored"),
+                      "after an intermediate parameter re-assignment")
+    # 4d. the definition grows: an event / transition / ODE term is added to the LIVE model; the reference is a FRESH model of
+    # the final definition (built from the specification, never evaluated before)
+    if pr.get("extend", True):
+        spec_ext = copy.deepcopy(spec)
+        spec_ext["then"] = list(spec_ext.get("then", [])) + [pr["extra"]]
+        try:
+            fresh = pymodel.build(spec_ext, backend="lambda")
+            if nP:
+                fresh.parameters = th
+            Dext = derivs(fresh, nS, nP, x, t)
+            ok_ext = [str(s) for s in fresh.state_list] == states and [str(p) for p in fresh.param_list] == params
+        except Exception as exc:
+            Dext, ok_ext = None, False
+            mism.append({"what": "fresh model of the extended definition could not be built or evaluated", "detail": "%s: %s" % (type(exc).__name__, str(exc)[:200])})
+        if Dext is not None and ok_ext:
+            lr_ext = lean_assemble(spec_ext, derivs=True)
+            ex_ext = exact_at(lr_ext, env) if lr_ext.get("err") is None else None
+            visit(model, D1, P, "ndarray", "float", PRIMARY, "", "")
+            try:
+                pymodel.apply_then(model, pr["extra"])
+                grown = True
+            except Exception as exc:
+                grown = False
+                ses.violation("%s on the live model raised %s: %s" % (pr["extra"]["op"], type(exc).__name__, str(exc)[:120]),
+                              "definition-change:raises", json.dumps(pr["extra"])[:300])
+            if grown:
+                tags.append("probe:revisit-definition:" + pr["extra"]["op"])
+                changed = any(not np.array_equal(Dext[k], D1[k]) for k in ("J", "G", "DJ", "GJ"))
+                tags.append("revisit-definition:derivatives-%s" % ("changed" if changed else "unchanged"))
+                visit(model, Dext, P, "ndarray", "float", PRIMARY, ":revisit-definition",
+                      " evaluated again at the same (z,t) after %s on the live model (reference: fresh model of the final definition)" % pr["extra"]["op"],
+                      lean=(lean_expect(nS, nP, ex_ext, zq, zivq) if ex_ext is not None else None), fd_on=True)
+                visit(model, Dext, P, "ndarray", pr["secondary_tform"], SECONDARY, ":revisit-definition", " after %s on the live model" % pr["extra"]["op"])
+    elif "extend" in pr:
+        tags.append("probe:revisit-definition:skipped(cython,quick)")
+    # ---- 5. results kept from the whole session, arguments handed in
+    nkept = ses.finish()
+    tags.append("probe:kept")
+    tags.append("kept-arrays>=%d" % (50 * (nkept // 50)))
+    # one violation per signature and case (a broken form shows in every entry point and container)
+    seen, uniq = {}, []
+    for v in viol:
+        if v["signature"] in seen:
+            seen[v["signature"]]["count"] = seen[v["signature"]].get("count", 1) + 1
+        else:
+            seen[v["signature"]] = v
+            uniq.append(v)
+    for v in uniq:
+        if v.get("count"):
+            v["detail"] = "%s [%d occurrences in this case]" % (v["detail"], v.pop("count"))
+    viol = uniq
     # vec <-> mat helpers exactly
     if nP >= 1:
         from pygom.model import ode_utils
@@ -366,8 +942,9 @@ def run_point(case):
         if back != [int(Fraction(v)) for v in layout("matToVecSens", nS=nS, nP=nP, S=Mp)]:
             mism.append({"what": "matToVecSens vs Lean", "detail": str(back)})
     nontriv = bool(np.any(Jn != 0)) and ((nP == 0 and nS >= 2) or (nP >= 1 and bool(np.any(Gn != 0)) and nS * nP >= 2))
-    return {"nontrivial": nontriv, "mismatches": mism, "violations": viol, "tags": tags,
-            "sample": {"spec": spec, "point": case["point"], "nS": nS, "nP": nP}}
+    return {"nontrivial": nontriv, "mismatches": mism, "violations": viol, "tags": sorted(set(tags)),
+            "sample": {"spec": spec, "point": case["point"], "nS": nS, "nP": nP, "probes": {k: pr[k] for k in ("ipoint", "reassign", "t2", "extra")},
+                       "sibling": pr["sibling"]["variant"], "calls": ses.calls}}
 
 
 def run_integrated(case):
@@ -381,6 +958,8 @@ def run_integrated(case):
     x0 = np.array([float(env[s]) for s in states]); th0 = np.array([float(env[p]) for p in params])
     T = float(case["T"]); ts = [T / 2, T]
     tags += ["integrated", "nS=%d" % nS, "nP=%d" % nP]
+    use_T = case.get("entry") == "T"      # the time-first twins (what solve_ivp takes as they are)
+    tags.append("integrated:entry=" + ("_T" if use_T else "plain"))
 
     def flow(th, x):
         if nP:
@@ -425,7 +1004,11 @@ def run_integrated(case):
         bs = bool(case.get("by_state"))
         z0 = np.append(x0, np.zeros(nS * nP))
         try:
-            sol = ref_solve(lambda t, z: np.asarray(model.ode_and_sensitivity(z, t, bs), float).ravel(), z0, 0.0, ts, rtol=1e-11, atol=1e-12)
+            if use_T:
+                rhs_aug = lambda t, z: np.asarray(model.ode_and_sensitivity_T(t, z, bs), float).ravel()
+            else:
+                rhs_aug = lambda t, z: np.asarray(model.ode_and_sensitivity(z, t, bs), float).ravel()
+            sol = ref_solve(rhs_aug, z0, 0.0, ts, rtol=1e-11, atol=1e-12)
             err = None
         except Exception as exc:
             sol, err = None, "%s: %s" % (type(exc).__name__, str(exc)[:160])
@@ -449,7 +1032,11 @@ def run_integrated(case):
     # initial-value system
     z0 = np.concatenate([x0, np.zeros(nS * nP), np.eye(nS).flatten("F")])
     try:
-        sol = ref_solve(lambda t, z: np.asarray(model.ode_and_sensitivityIV(z, t), float).ravel(), z0, 0.0, ts, rtol=1e-11, atol=1e-12)
+        if use_T:
+            rhs_iv = lambda t, z: np.asarray(model.ode_and_sensitivityIV_T(t, z), float).ravel()
+        else:
+            rhs_iv = lambda t, z: np.asarray(model.ode_and_sensitivityIV(z, t), float).ravel()
+        sol = ref_solve(rhs_iv, z0, 0.0, ts, rtol=1e-11, atol=1e-12)
         err = None
     except Exception as exc:
         sol, err = None, "%s: %s" % (type(exc).__name__, str(exc)[:160])
